@@ -102,6 +102,7 @@ def model(flows=None, apu='running', aclass='narrow', mode_order='idle_first', e
 
 ALT = [900.0, 4000.0, 9500.0, 12500.0, 10800.0, 6000.0, 2500.0, 11000.0]
 ALT_LOW = [300.0, 1200.0, 2400.0, 2400.0, 1500.0, 600.0, 1800.0, 2400.0]   # InventoryGen.tla AltProfile "low": a hop below 2.5 km
+ALT_REF = [300.0, 1200.0, 3000.0, 3000.0, 1500.0, 600.0, 1800.0, 3000.0]   # "ref_level": the top of the flight is exactly 3000 m
 TAS = [150.0, 200.0, 235.0, 240.0, 230.0, 210.0, 160.0, 238.0]
 FF = [1.9, 1.4, 0.9, 0.05, 0.6, 0.3, 3.2, 0.0]
 
@@ -135,7 +136,7 @@ class PlainTrajectory:
 
 def synthetic_traj(burn_g, nc, nd, start_fuel_kg=500.0, carrier='container', profile='high'):
     """Trajectory whose fuel_mass profile realises the integer burns (grams)."""
-    alts = ALT_LOW if profile == 'low' else ALT
+    alts = ALT_LOW if profile == 'low' else ALT_REF if profile == 'ref_level' else ALT
     if carrier != 'container':
         return PlainTrajectory(burn_g, nc, nd, start_fuel_kg, float if carrier == 'plain_float' else np.int64, alts)
     from AEIC.trajectories.trajectory import Trajectory
